@@ -430,3 +430,176 @@ func VH07d_late_response() {
 	verif.Reach("late-response-checked")
 	sock.Close()
 }
+
+type brec struct {
+	g          *verif.G
+	m          *mangos.Message
+	err        error
+	afterClose bool
+}
+
+// VH07e_burst: with a survey in progress (and possibly a response already
+// queued), two of {the context is closed and the same goroutine at once calls
+// Recv; a Recv; a response to the survey arrives; the survey timer expires; a
+// new survey is sent} happen at the same moment, under every schedule in which
+// one goroutine stalls at one synchronisation point until the others have come
+// to rest. What each Recv returns must be explainable by SOME order of the
+// events, and afterwards a fresh survey behaves as if nothing had happened:
+// only its own response is delivered, stale ones never are.
+func VH07e_burst() {
+	lab := "C07/burst"
+	sock := vp.New("surveyor")
+	T := time.Second
+	verif.Assert(sock.SetOption(mangos.OptionSurveyTime, T) == nil, lab+"/set-survey-time")
+	side := vt.Listen(sock, "a")
+	pipes := []*vt.Pipe{side.Peer("r0"), side.Peer("r1")}
+	s := &sv{name: "sock", sock: sock}
+	useCtx := verif.Choice("api", 2) == 1
+	if useCtx {
+		c1, err := sock.OpenContext()
+		verif.Assert(err == nil, lab+"/open-context")
+		verif.Assert(c1.SetOption(mangos.OptionSurveyTime, T) == nil, lab+"/set-survey-time-ctx")
+		s = &sv{name: "ctx", c: c1}
+	}
+	verif.Assert(s.send([]byte{1}) == nil, lab+"/survey-1")
+	verif.Quiesce()
+	verif.Assert(len(pipes[0].Sent) == 1 && len(pipes[0].Sent[0].H) == 4, lab+"/survey-1-on-the-wire")
+	if len(pipes[0].Sent) != 1 || len(pipes[0].Sent[0].H) != 4 {
+		return
+	}
+	id1 := be32(pipes[0].Sent[0].H)
+	resp := func(p *vt.Pipe, id uint32, tag byte) {
+		p.Deliver([]byte{byte(id >> 24), byte(id >> 16), byte(id >> 8), byte(id), tag})
+	}
+	queued := verif.Choice("queued", 2) == 1
+	if queued {
+		resp(pipes[0], id1, 101)
+		verif.Quiesce()
+	}
+	a := verif.Choice("ev-a", 5)
+	b := verif.Choice("ev-b", 5)
+	verif.Assume(a < b)
+	var recs []*brec
+	closed, sent2, expired, arrived := false, false, false, false
+	var serr2 error
+	var g2 *verif.G
+	issue := func(ev int) {
+		switch ev {
+		case 0:
+			verif.Assume(useCtx)
+			closed = true
+			r := &brec{afterClose: true}
+			recs = append(recs, r)
+			r.g = verif.Go("close-then-recv", func() {
+				s.c.Close()
+				r.m, r.err = s.recvMsg()
+			})
+		case 1:
+			r := &brec{}
+			recs = append(recs, r)
+			r.g = verif.Go("recv", func() { r.m, r.err = s.recvMsg() })
+		case 2:
+			arrived = true
+			resp(pipes[1], id1, 102)
+		case 3:
+			expired = verif.FireTimerNow()
+			verif.Assert(expired, lab+"/no-expiry-timer-pending-for-active-survey")
+		case 4:
+			sent2 = true
+			g2 = verif.Go("survey-2", func() { serr2 = s.send([]byte{2}) })
+		}
+	}
+	issue(a)
+	issue(b)
+	verif.Quiesce()
+	got101, got102 := 0, 0
+	for _, r := range recs {
+		if !r.g.Done() {
+			// still waiting: only legitimate while a survey is live and nothing is queued for it
+			live1 := !closed && !expired && !sent2
+			verif.Assert(live1 || (sent2 && !closed), lab+"/recv-blocks-without-live-survey")
+			if live1 {
+				verif.Assert(!queued && !arrived, lab+"/response-available-but-recv-blocked")
+			}
+			continue
+		}
+		switch {
+		case r.err == nil:
+			verif.Assert(!r.afterClose, lab+"/response-delivered-by-a-recv-issued-after-the-context-was-closed")
+			bd := r.m.Body
+			ok := len(bd) == 1 && ((bd[0] == 101 && queued) || (bd[0] == 102 && arrived))
+			verif.Assert(ok, lab+"/delivered-message-is-not-a-response-to-the-survey")
+			if ok && bd[0] == 101 {
+				got101++
+			}
+			if ok && bd[0] == 102 {
+				got102++
+			}
+		case r.err == mangos.ErrProtoState:
+			verif.Assert(closed || expired, lab+"/ErrProtoState-during-live-survey")
+		case r.err == mangos.ErrCanceled:
+			verif.Assert(sent2, lab+"/ErrCanceled-without-new-survey")
+		case r.err == mangos.ErrClosed:
+			verif.Assert(closed, lab+"/ErrClosed-on-open-context")
+		default:
+			verif.Fail(lab + "/unexpected-recv-error")
+		}
+	}
+	verif.Assert(got101 <= 1 && got102 <= 1, lab+"/response-delivered-twice")
+	if g2 != nil {
+		verif.Assert(g2.Done(), lab+"/survey-send-blocked")
+		if closed {
+			verif.Assert(serr2 == nil || serr2 == mangos.ErrClosed, lab+"/survey-2-result")
+		} else {
+			verif.Assert(serr2 == nil, lab+"/survey-2-result")
+		}
+	}
+	verif.Reach("burst-done")
+	// epilogue: a fresh survey on the same context
+	if closed {
+		verif.Assert(s.send([]byte{3}) == mangos.ErrClosed, lab+"/survey-on-closed-context")
+		_, rerr := s.recvMsg()
+		verif.Assert(rerr != nil, lab+"/recv-on-closed-context-delivers")
+		sock.Close()
+		return
+	}
+	var id2 uint32
+	if sent2 && serr2 == nil {
+		n := len(pipes[0].Sent)
+		verif.Assert(n == 2, lab+"/survey-2-not-sent-once")
+		if n != 2 {
+			return
+		}
+		id2 = be32(pipes[0].Sent[1].H)
+		verif.Assert(id2 != id1, lab+"/survey-ids-distinct")
+	}
+	n0 := len(pipes[0].Sent)
+	verif.Assert(s.send([]byte{3}) == nil, lab+"/survey-3")
+	verif.Quiesce()
+	verif.Assert(len(pipes[0].Sent) == n0+1 && len(pipes[1].Sent) == n0+1, lab+"/survey-not-sent-once-to-every-respondent")
+	if len(pipes[0].Sent) != n0+1 {
+		return
+	}
+	id3 := be32(pipes[0].Sent[n0].H)
+	verif.Assert(id3 != id1 && id3 != id2, lab+"/survey-ids-distinct")
+	for _, r := range recs {
+		verif.Assert(r.g.Done(), lab+"/recv-of-a-replaced-survey-still-blocked")
+	}
+	resp(pipes[0], id1, 111)
+	if id2 != 0 {
+		resp(pipes[1], id2, 112)
+	}
+	verif.Quiesce()
+	resp(pipes[1], id3, 113)
+	verif.Quiesce()
+	m, rerr := s.recvMsg()
+	verif.Assert(rerr == nil, lab+"/fresh-survey-response-not-delivered")
+	if rerr == nil {
+		verif.Assert(len(m.Body) == 1 && m.Body[0] == 113, lab+"/stale-response-delivered-for-fresh-survey")
+	}
+	gx := verif.Go("recv-extra", func() { s.recvMsg() })
+	verif.Quiesce()
+	verif.Assert(!gx.Done(), lab+"/invented-or-stale-response-delivered")
+	verif.Reach("burst-epilogue")
+	sock.Close()
+}
